@@ -93,6 +93,32 @@ theorem masked_canon (bits : ℕ) (raw : List ℕ) (hlen : raw.length = nlimbs b
     Canon bits (masked bits raw) ∧ val (masked bits raw) = val raw % 2 ^ bits :=
   masked_spec bits raw hlen hl
 
+/-- the generators named by the property. `rand` 0.8/0.9 (`rng.fill(limbs); apply_mask()`) and `proptest`
+    (`from_limbs_unmasked(any [u64; LIMBS])`) are `masked raw` (`masked_canon`); `arbitrary` draws the last limb
+    with `int_in_range(0..=MASK)` and `quickcheck` with `u64 & MASK`, then calls `from_limbs`:
+    for ANY raw limbs the constructed array is canonical and `from_limbs` accepts it. -/
+theorem generator_models_canon (bits : ℕ) (rest : List ℕ) (last : ℕ)
+    (hlen : rest.length + 1 = nlimbs bits) (hr : AllLt rest) (hlast : last < W) :
+    (last ≤ mask bits → Canon bits (rest ++ [last]) ∧ fromLimbs bits (rest ++ [last]) = some (rest ++ [last]))
+    ∧ (Canon bits (rest ++ [last % (mask bits + 1)])
+        ∧ fromLimbs bits (rest ++ [last % (mask bits + 1)]) = some (rest ++ [last % (mask bits + 1)])) := by
+  have hl : (rest ++ [last]).length = nlimbs bits := by simp; omega
+  have hall : AllLt (rest ++ [last]) := AllLt.append hr (AllLt.cons hlast AllLt.nil)
+  constructor
+  · intro hle
+    have hc : Canon bits (rest ++ [last]) := by
+      rw [canon_iff_top bits _ hl hall, top_append]
+      rintro ⟨_, h⟩; omega
+    exact ⟨hc, fromLimbs_canon bits _ hc⟩
+  · have hc : Canon bits (rest ++ [last % (mask bits + 1)]) := by
+      have hpos : 0 < bits := by
+        by_contra h
+        have : bits = 0 := by omega
+        subst this; simp [nlimbs] at hlen
+      have := (maskTop_spec bits hpos (rest ++ [last]) hl hall).1
+      rwa [maskTop_append] at this
+    exact ⟨hc, fromLimbs_canon bits _ hc⟩
+
 /-- the limb-slice constructors: every variant returns a canonical value or rejects. -/
 theorem limbs_slice_constructors_spec (bits : ℕ) (sl : List ℕ) (hsl : AllLt sl) :
     (∃ l o, overflowingFromLimbsSlice bits sl = some (l, o) ∧ Canon bits l
